@@ -105,12 +105,17 @@ def run(tier):
                 j.ok(cid, nontrivial=form != "array")
         elif op == "unit":
             name, d = c["name"], c["dir"]
-            f = al.UNIT_IN[name] if d == "in" else al.UNIT_OUT[name]
-            cid = (name, "unit", d)
+            cid = (name, "unit", d, c["cfg"], c["order"])
             try:
-                rd, rr = f("deg"), f("rad")
+                if d == "in":
+                    rd, rr = al.UNIT_IN[name]("deg"), al.UNIT_IN[name]("rad")
+                else:
+                    R, T, H = al._cfg(c["cfg"], c["order"])
+                    rd = al.UNIT_OUT[name]("deg", R, T, H, c["order"])
+                    rr = al.UNIT_OUT[name]("rad", R, T, H, c["order"])
             except Exception as ex:  # noqa: BLE001
-                j.fail("%s|%s|unit-%s|raised-%s" % (PID, name, d, type(ex).__name__), {"kind": "unit", "call": c}, cid)
+                j.fail("%s|%s|unit-%s;%s;%s|raised-%s" % (PID, name, d, c["cfg"], c["order"], type(ex).__name__),
+                       {"kind": "unit", "call": c}, cid)
                 continue
             if rd is None or rr is None:
                 j.skip("method has no unit parameter")
@@ -123,7 +128,7 @@ def run(tier):
                     x.shape == y.shape and np.allclose(x.astype(float), y.astype(float) * 180 / math.pi, rtol=0, atol=1e-10)
                     for x, y in zip(a, bb))
             if not ok:
-                j.fail("%s|%s|unit-%s|deg-differs-from-rad" % (PID, name, d), {"kind": "unit", "call": c}, cid)
+                j.fail("%s|%s|unit-%s;%s;%s|deg-differs-from-rad" % (PID, name, d, c["cfg"], c["order"]), {"kind": "unit", "call": c}, cid)
             else:
                 j.ok(cid)
         elif op == "badunit":
